@@ -119,6 +119,25 @@ Theorem C19_stop_outcomes : forall c s cv s' out sid o, Inv s -> step c s (EStop
   exists pls cur v, ph s = Sending pls cur /\ cv = Some v /\ result_ok c cur v = true /\ value_outcome c v o.
 Proof. exact stop_outcomes. Qed.
 Print Assumptions C19_stop_outcomes.
+(* F-C19-4 (known finding): the strict reading of the property's last sentence - "stopping the producer fails EVERY
+   outstanding send with a cancellation error" - is FALSE of the model, as of the code over the real client: a batch
+   with a payload for each of two brokers is in flight, one broker has answered; stop() cancels the client's request,
+   whose cancelled Deferred delivers that broker's acknowledgement and fails the other payload; the acknowledged send
+   fires with its ProduceResponse (truthfully: C01), the other one with the cancellation error.  C19_stop_outcomes
+   above is what does hold. *)
+Theorem C19_stop_all_cancelled_refuted :
+  exists c s cv s' out, reachable c s /\ step c s (EStop cv) = (s', out) /\ ~ Forall cancel_outcome out
+                        /\ In (OOutcome 0 (OResp 0 0 0 7)) out /\ In (OOutcome 1 (OFail K_TIDCANCEL 0)) out.
+Proof.
+  exists {| c_acks := 1; c_n := 2; c_b := 0; c_max := 3 |}.
+  exists (fst (run {| c_acks := 1; c_n := 2; c_b := 0; c_max := 3 |} (init_state true 1 [(0, (0, true))]) [ESend 0 0 1 10; ESend 0 1 1 10])).
+  exists (Some (VFailed [((0, 0), 0, 7)] [((0, 1), K_TIDCANCEL)])).
+  eexists; eexists. split; [exists true, 1, [(0, (0, true))], [ESend 0 0 1 10; ESend 0 1 1 10]; reflexivity|].
+  split; [vm_compute; reflexivity|]. split.
+  - intro F. inversion F as [|? ? H _]; subst. destruct H as [H|H]; discriminate H.
+  - split; [left; reflexivity | right; left; reflexivity].
+Qed.
+Print Assumptions C19_stop_all_cancelled_refuted.
 
 (* The time limit stays armed until stop(): in every run, while the producer is not stopping the periodic call is
    running iff a time limit was configured (so C19_no_starvation applies at every tick before stop). *)
